@@ -44,6 +44,7 @@ package peer
 //@   ensures ret1 == nil ==> uvarintVal(b) == 0
 //@ func IDB58Decode
 //@   ensures ret1 == nil ==> b58ok(s) && ret0 == b58dec(s)
+//@   ensures ret1 == nil ==> mhWellFormed(ret0) && uvarintVal(ret0) == 0
 //@ func (*SignedMsg).ParseFromPeerID
 //@   ensures ret1 == nil ==> b58ok(m.FromPeerId) && ret0 == b58dec(m.FromPeerId)
 
